@@ -10,8 +10,10 @@ RULE = ("API level: multisets of <=4 timestamps (duplicates, on bin edges, on in
         "count with and without bin size, bin_average on Tsd/TsdFrame, TsGroup.count; each compared with the property's own "
         "formula (oracle) and with the Lean model of jitcount/_jitbin_array. distinct = distinct (timestamps, set, bin, scale)")
 PROVED = ("countIn_spec, binLoop_centres (bin grid), countIn_counts + binLoop_counts (the k-th reported bin of an epoch counts exactly that epoch's "
-          "samples with start+k*bin <= t < start+(k+1)*bin), nbBins_suffices (the preallocation never truncates); C15 jitbin_safe")
-NOT_PROVED = "bin_average means (sum/count: oracle), TsGroup column assembly, dtype, unit conversion of the bin size (C09 algebra)"
+          "samples with start+k*bin <= t < start+(k+1)*bin), countIn_sums + binLoop_sums (the same bin carries the SUM of exactly those samples' "
+          "data, so bin_average = that sum / that count, NaN for an empty bin), nbBins_suffices (the preallocation never truncates); "
+          "C15 jitbin_safe")
+NOT_PROVED = "the float division sum/count, TsGroup column assembly, dtype, unit conversion of the bin size (C09 algebra)"
 ASSUMPTIONS = ["series restricted and sorted; ep canonical; bin size a positive multiple of 2 ns so that centres are on the ns lattice"]
 
 SCALES = [2000, 10**6, 10**9, 7812500]
